@@ -18,7 +18,7 @@ ENGINES = [
 ]
 CHECKS = {
     "C01": {"engine": "G+F", "design_ref": "DESIGN.md section 3 C01",
-            "technique": "static analysis: capture-scope def/use between grammar results names and parse actions, call binding against constructor signatures/annotations, marker-to-spelling chain",
+            "technique": "static analysis: capture-scope def/use between grammar results names and parse actions, call binding against constructor signatures/annotations, marker-to-spelling chain, shape of named results (value / list / wrapped node) against the constructor's use",
             "text": "Decides that nothing the grammar matches is dropped, invented or routed to another field "
                     "between the grammar and the node objects (every information point of every parse action's "
                     "capture scope is read; every read name is defined; constructor binding by arity, keyword "
@@ -34,7 +34,7 @@ CHECKS = {
                     "equality. Does not decide value-level equality of the resulting spellings for all inputs.",
             "note": TB + "; type-carrying fields taken from the parser classes' own annotations"},
     "C03": {"engine": "E+F+G", "design_ref": "DESIGN.md section 3 C03",
-            "technique": "static analysis: node-kind / member-kind exhaustiveness between grammar, instantiator and emitter dispatch; dominance of filter/ignore/escape steps over the emissions they protect; folded-template slot provenance",
+            "technique": "static analysis: node-kind / member-kind exhaustiveness between grammar, instantiator and emitter dispatch; dominance of filter/ignore/escape steps over the emissions they protect; guards of wrap_namespace read as constraints on the depth relative to the top namespace (abstract evaluation for d=-2..2); folded-template slot provenance",
             "text": "Decides that every node and member kind the instantiated tree can contain has an emitter, that "
                     "the top-namespace filter, the ignore test, the once-per-submodule declaration and the keyword "
                     "escape dominate the emissions they protect, and that namespace depth is computed relative to "
@@ -89,7 +89,7 @@ CHECKS = {
                     "any conforming library' needs a compiler and the library and is not decided.",
             "note": TB},
     "C10": {"engine": "E+F", "design_ref": "DESIGN.md section 3 C10",
-            "technique": "static analysis: guard pairing of preamble fragments, enumerate-from-zero shape, normal-form agreement of package paths across sibling sites, unconditional concatenation of classdef parts, single MEX-source entry, overload grouping by name, must-definition analysis of per-class scalar state",
+            "technique": "static analysis: guard pairing of preamble fragments, enumerate-from-zero shape, package paths of all sibling sites evaluated by the analyser on sample namespace lists (depth 1 and 3), unconditional concatenation of classdef parts, single MEX-source entry, overload grouping by name, must-definition analysis of per-class scalar state",
             "text": "Decides that collector/clean-up/RTTI fragments are emitted under the right (paired) conditions for "
                     "every registered class, enumerators are numbered from 0 in declared order, all entity kinds "
                     "derive their +package path by one normal form, the classdef always contains its mandatory parts "
@@ -126,13 +126,13 @@ CHECKS = {
                     "OS-level atomicity under concurrent writers of the same target.",
             "note": TB + "; insertion-ordered dict/list iteration; MatlabWrapper single-use (exempt from R3)"},
     "C15": {"engine": "F+E", "design_ref": "DESIGN.md section 3 C15",
-            "technique": "static analysis: normal-form comparison of ignore keys across sibling sites, dominance of the ignore test over every per-class emission, None-result handling at every caller",
+            "technique": "static analysis: normal-form comparison of ignore keys across sibling sites, dominance of the ignore test over every per-class emission, None-result handling at every caller, package path of every entity kind evaluated on sample namespace lists",
             "text": "Decides that each generator computes one ignore key, that the ignore test dominates all artefacts of "
                     "the class (binding, enums; classdef, ids, collector, clean-up, RTTI) and that the 'ignored' result "
                     "is tested before use. Equivalence with deleting the declaration for all inputs is not re-proved.",
             "note": TB},
     "C16": {"engine": "F+E", "design_ref": "DESIGN.md section 3 C16",
-            "technique": "static analysis: separator provenance of the parsed text, agreement of folded initialiser templates (declaration/definition/call/module variable), CLI option plumbing table with None-reachability, abstract interpretation of the namespace-option normalisation over spelling classes in both scripts, aliasing rule on entry-point parameters, must-pass-through (every normal exit of wrap / wrap_submodule preceded by the write of the generated text)",
+            "technique": "static analysis: separator provenance of the parsed text, agreement of folded initialiser templates (declaration/definition/call/module variable), CLI option plumbing table with None-reachability, abstract interpretation of the namespace-option normalisation over spelling classes in both scripts, aliasing rule on entry-point parameters, must-pass-through (every normal exit of wrap / wrap_submodule preceded by the write of the generated text), agreement of the cmake command lines with the scripts' declared options and of expected with written file names",
             "text": "Decides that file contents are separated before parsing, that the main file and submodules agree on "
                     "initialiser name, signature and module variable, that every CLI option reaches its API keyword "
                     "and a possibly-None option never reaches a membership test, and that both scripts normalise the "
